@@ -90,6 +90,10 @@ var penvs = []penv{
 	{name: "resource=ignore", p: P, a: A, r: ignore, c: knownCtx, ignores: []string{"resource"}},
 	{name: "context=ignore", p: P, a: A, r: R, c: ignore, ignores: []string{"context"}},
 	{name: "context.a=ignore", p: P, a: A, r: R, c: rec("a", ignore, "r", rec("b", types.Long(1)), "s", set(types.Long(1), types.Long(2))), ignores: []string{"context.a"}},
+	{name: "principal=?,resource=ignore", p: variable("p"), a: A, r: ignore, c: knownCtx, vars: []string{"p"}, ignores: []string{"resource"}},
+	{name: "principal=ignore,resource=?", p: ignore, a: A, r: variable("res"), c: knownCtx, vars: []string{"res"}, ignores: []string{"principal"}},
+	{name: "context.a=?,resource=ignore", p: P, a: A, r: ignore, c: rec("a", variable("x"), "r", rec("b", types.Long(1)), "s", set(types.Long(1), types.Long(2))), vars: []string{"x"}, ignores: []string{"resource"}},
+	{name: "principal=?,context.a=ignore", p: variable("p"), a: A, r: R, c: rec("a", ignore, "r", rec("b", types.Long(1)), "s", set(types.Long(1), types.Long(2))), vars: []string{"p"}, ignores: []string{"context.a"}},
 	{name: "principal=?,context=ignore", p: variable("p"), a: A, r: R, c: ignore, vars: []string{"p"}, ignores: []string{"context"}},
 }
 
@@ -195,7 +199,7 @@ var condShapes = []shape{
 
 func leaves() []*Expr {
 	return []*Expr{
-		Access(Var("context"), "a"), Access(Access(Var("context"), "r"), "b"), Var("context"), Access(Var("context"), "s"), Var("principal"), Access(Var("resource"), "a"), Access(Var("principal"), "a"),
+		Access(Var("context"), "a"), Access(Access(Var("context"), "r"), "b"), Var("context"), Access(Var("context"), "s"), Var("principal"), Access(Var("resource"), "a"), Access(Var("principal"), "a"), Var("resource"),
 		L(Long(1)), L(Str("s")), L(Bool(true)), L(Entity("U", "alice")), L(Set(Long(1), Long(2))), L(Rec(KV{"a", Long(1)}, KV{"r", Rec(KV{"b", Long(1)})}, KV{"s", Set(Long(1), Long(2))})), L(Entity("G", "g2")),
 		L(Rec(KV{"k", Long(1)})), L(Set(Long(1))), L(Set(Rec(KV{"k", Set(Long(1))}))),
 	}
@@ -558,7 +562,7 @@ func Check() *core.Check {
 		ID:        "C06",
 		HangAfter: 120 * time.Second, // cases take at most seconds (max_case_s in the evidence); see core.Family.HangAfter
 		Title:     "Partial evaluation is sound for every completion of the unknowns",
-		Rule: "bounded-exhaustive: policies (scope-form pairs; every operator form over 17 leaves in 4 policy shapes; lists of 1..3 when/unless clauses; depth-2 short-circuit/structural parents) x 22 partial environments (unknown principal/action/resource/context, unknowns nested up to three levels deep in context records and sets (set in record, record in set, set in set, set in record in set), the same unknown twice, ignored parts) x every completion from universes that hit both branches of the comparisons; kept => residual satisfied iff original; dropped => original never satisfied; ignored part (permit) => original satisfied implies kept and residual satisfied; " +
+		Rule: "bounded-exhaustive: policies (scope-form pairs; every operator form over 18 leaves in 4 policy shapes; lists of 1..3 when/unless clauses; depth-2 short-circuit/structural parents) x 26 partial environments (unknown principal/action/resource/context, unknowns nested up to three levels deep in context records and sets (set in record, record in set, set in set, set in record in set), the same unknown twice, ignored parts, an unknown part together with an ignored one) x every completion from universes that hit both branches of the comparisons; kept => residual satisfied iff original; dropped => original never satisfied; ignored part (permit) => original satisfied implies kept and residual satisfied; " +
 			"a case is non-trivial if under some environment with unknowns the original is satisfied for some completions and not for others",
 		Assumptions: []string{"satisfaction is judged by x/exp/eval.Eval on PolicyToNode (its conformance is C01)", "forbid policies under ignored parts are not constrained by the property and are skipped"},
 		Families: func(tier string) []*core.Family {
